@@ -4,7 +4,7 @@ use crate::{
     model::{
         TryFromNode,
         field::{as_field_name, resolve_type},
-        structures::{as_string_literal_content, xml_name_to_rust_name},
+        structures::{as_identifier, as_string_literal_content, xml_name_to_rust_name},
     },
     reader::WriteXml,
 };
@@ -108,7 +108,7 @@ where
     // generate an async fn for the operation
     let rust_fn_name = as_field_name(operation_name);
     // the envelope types are named after the operation in PascalCase, see the binding writer
-    let operation_name = to_pascal_case(operation_name);
+    let operation_name = as_identifier(&to_pascal_case(operation_name));
     let request_name = format!("{operation_name}InputEnvelope");
     let response_name = operation
         .output
